@@ -515,37 +515,49 @@ func parseContent(contentMap map[string]any) (Content, error) {
 	contentType := extractString(contentMap, "type")
 
 	switch contentType {
-	case "text":
+	case ContentTypeText:
 		return parseTextContent(contentMap)
-	case "image":
+	case ContentTypeImage:
 		return parseImageContent(contentMap)
-	case "resource":
+	case ContentTypeAudio:
+		return parseAudioContent(contentMap)
+	case "resource", ContentTypeEmbeddedResource:
 		return parseResourceContent(contentMap)
 	default:
 		return nil, fmt.Errorf("unsupported content type: %s", contentType)
 	}
 }
 
-// parseTextContent parses text content
+// parseTextContent parses a text content object.
 func parseTextContent(contentMap map[string]any) (Content, error) {
-	text := extractString(contentMap, "text")
-	if text == "" {
+	text, ok := contentMap["text"].(string)
+	if !ok {
 		return nil, fmt.Errorf("text is missing")
 	}
 	return NewTextContent(text), nil
 }
 
-// parseImageContent parses image content
+// parseImageContent parses an image content object.
 func parseImageContent(contentMap map[string]any) (Content, error) {
-	data := extractString(contentMap, "data")
-	mimeType := extractString(contentMap, "mimeType")
-	if data == "" || mimeType == "" {
+	data, okData := contentMap["data"].(string)
+	mimeType, okMime := contentMap["mimeType"].(string)
+	if !okData || !okMime {
 		return nil, fmt.Errorf("image data or mimeType is missing")
 	}
 	return NewImageContent(data, mimeType), nil
 }
 
-// parseResourceContent parses resource content
+// parseAudioContent parses an audio content object.
+func parseAudioContent(contentMap map[string]any) (Content, error) {
+	data, okData := contentMap["data"].(string)
+	mimeType, okMime := contentMap["mimeType"].(string)
+	if !okData || !okMime {
+		return nil, fmt.Errorf("audio data or mimeType is missing")
+	}
+	return NewAudioContent(data, mimeType), nil
+}
+
+// parseResourceContent parses an embedded resource content object.
 func parseResourceContent(contentMap map[string]any) (Content, error) {
 	resourceMap := extractMap(contentMap, "resource")
 	if resourceMap == nil {
@@ -579,14 +591,14 @@ func extractMap(data map[string]any, key string) map[string]any {
 }
 
 func parseResourceContents(contentMap map[string]any) (ResourceContents, error) {
-	uri := extractString(contentMap, "uri")
-	if uri == "" {
+	uri, ok := contentMap["uri"].(string)
+	if !ok {
 		return nil, fmt.Errorf("resource uri is missing")
 	}
 
 	mimeType := extractString(contentMap, "mimeType")
 
-	if text := extractString(contentMap, "text"); text != "" {
+	if text, ok := contentMap["text"].(string); ok {
 		return TextResourceContents{
 			URI:      uri,
 			MIMEType: mimeType,
@@ -594,7 +606,7 @@ func parseResourceContents(contentMap map[string]any) (ResourceContents, error) 
 		}, nil
 	}
 
-	if blob := extractString(contentMap, "blob"); blob != "" {
+	if blob, ok := contentMap["blob"].(string); ok {
 		return BlobResourceContents{
 			URI:      uri,
 			MIMEType: mimeType,
